@@ -87,6 +87,11 @@ type Lemma struct {
 	Reveal []string
 	Body  string // commands; must be unsat together with the prelude
 	File  string
+	Uses     []string // earlier lemmas whose ;@provides statement is assumed
+	UsesText string   // resolved statements of the cited lemmas
+	Proves   []string // named axioms of the specification (;@axiom-begin NAME … ;@axiom-end NAME) that this lemma establishes: removed from the prelude of its own check
+	BadCite  string   // a citation that does not resolve to an earlier lemma with a statement
+	Provides string   // the universally quantified statement this lemma establishes (for ;@uses)
 }
 
 func (e *Engine) specError(c Clause, err error) {
@@ -466,7 +471,7 @@ func (e *Engine) loadLemmas(path string) error {
 			cur = &Lemma{Name: fs[0], File: path}
 			mode := ""
 			for _, f := range fs[1:] {
-				if f == "props" || f == "reveal" {
+				if f == "props" || f == "reveal" || f == "uses" || f == "proves" {
 					mode = f
 					continue
 				}
@@ -474,12 +479,32 @@ func (e *Engine) loadLemmas(path string) error {
 					cur.Props = append(cur.Props, f)
 				} else if mode == "reveal" {
 					cur.Reveal = append(cur.Reveal, f)
+				} else if mode == "uses" {
+					cur.Uses = append(cur.Uses, f)
+				} else if mode == "proves" {
+					cur.Proves = append(cur.Proves, f)
 				}
 			}
 			continue
 		}
+		if strings.HasPrefix(tl, ";@provides") && cur != nil {
+			cur.Provides += strings.TrimSpace(strings.TrimPrefix(tl, ";@provides")) + "\n"
+			continue
+		}
 		if strings.HasPrefix(tl, ";@end") {
 			if cur != nil {
+				for _, u := range cur.Uses {
+					found := false
+					for _, l2 := range e.lemmas { // only lemmas that come earlier
+						if l2.Name == u && l2.Provides != "" {
+							cur.UsesText += "; ---- uses " + u + " ----\n" + l2.Provides
+							found = true
+						}
+					}
+					if !found {
+						cur.BadCite = u
+					}
+				}
 				e.lemmas = append(e.lemmas, cur)
 			}
 			cur = nil
